@@ -334,6 +334,8 @@ GEN_THEOREMS = {
     "C07": ("CoreDhcp.Props.GenAlloc4", ["GEN_a4_allocate_eq", "GEN_a4_toOffset_eq"]),
 }
 GEN_THEOREMS_MORE = [
+    # config/config.go from splitHostPort to Load regenerated (unit config)
+    ("C18", "CoreDhcp.Props.GenConfig", ['GEN_cfg_splitHostPort_eq', 'GEN_cfg_getListenAddress_eq', 'GEN_cfg_getListenAddress_no_panic', 'GEN_cfg_expand_eq', 'GEN_cfg_expand_no_panic', 'GEN_cfg_defaultListen_eq', 'GEN_cfg_defaultListen_no_panic', 'GEN_cfg_listenLoop_acc', 'GEN_cfg_listenLoop_eq', 'GEN_cfg_listenLoop_no_panic', 'GEN_cfg_parseListen_eq', 'GEN_cfg_parseListen_no_panic', 'GEN_cfg_pluginsLoop_acc', 'GEN_cfg_pluginsLoop_no_panic', 'GEN_cfg_parsePlugins_eq', 'GEN_cfg_parsePlugins_no_panic', 'GEN_cfg_getPlugins_eq', 'GEN_cfg_getPlugins_no_panic', 'GEN_cfg_parseSection_eq', 'GEN_cfg_parseSection_absent', 'GEN_cfg_parseConfig_no_panic', 'GEN_cfg_load_eq', 'GEN_cfg_load_no_panic', 'GEN_cfg_bad_version', 'GEN_cfg_load_v6_first', 'GEN_cfg_parseConfig_plugins_first']),
     # plugins/file: both loaders, handle4/handle6, loadFromFile regenerated (unit fileplugin)
     ("C10", "CoreDhcp.Props.GenFilePlugin", ['GEN_file_body4_eq', 'GEN_file_body6_eq', 'GEN_file_loop4_eq', 'GEN_file_loop6_eq', 'GEN_file_load4_eq', 'GEN_file_load6_eq', 'GEN_file_load4_model', 'GEN_file_load6_model', 'GEN_file_load_unreadable', 'GEN_file_loadFromFile_eq', 'GEN_file_loadFromFile_model', 'GEN_file_loadFromFile_unreadable', 'GEN_file_loadFromFile_error_unchanged', 'GEN_file_handle4_raw', 'GEN_file_handle4_eq', 'GEN_file_served4_eq', 'GEN_file_handle4_other', 'GEN_file_handle6_raw', 'GEN_file_handle6_eq', 'GEN_file_served6_eq', 'GEN_file_handle6_undecapsulated', 'GEN_file_handle6_other', 'GEN_file_exported', 'GEN_file_static_after_load', 'Gen7.wf_init', 'Gen7.wf_load']),
     # plugins.LoadPlugins regenerated (unit loadplugins)
